@@ -28,3 +28,46 @@ Example C07_tetrahedron :
   map snd (edge_info (tl tet)) = [0; 1; 1; 0; 1; 0]%nat /\
   map snd (edge_info (hd [] tet :: tet)) = [2; 2; 2; 1; 1; 1]%nat.
 Proof. vm_compute. repeat split; reflexivity. Qed.
+
+(* ---- the volume formula (model/Volume.v, hand model of Polyface3D.volume tied by correspondence) ------------------------------
+   6 * volume = sum over faces of  first_vertex . area_vector  (holes wound against the boundary add their own area vector). *)
+From Coq Require Import QArith Permutation.
+From LBG Require Import Base QGeom Volume.
+Open Scope Q_scope.
+
+(* for a closed, consistently oriented surface the value does not depend on where the solid sits *)
+Theorem C07_volume_is_translation_invariant : forall t fs, nonempty fs -> closed fs ->
+  vol6 (tmap (fun p => add3 p t) fs) == vol6 fs.
+Proof. exact vol6_translate. Qed.
+Print Assumptions C07_volume_is_translation_invariant.
+
+(* the vertex a face starts at does not matter: any point of the face's plane may serve as its reference point *)
+Theorem C07_volume_any_reference_point : forall fs (refs : face -> V3),
+  (forall f, In f fs -> dot3 (sub3 (refs f) (face_ref f)) (face_vec f) == 0) ->
+  qs (map (fun f => dot3 (refs f) (face_vec f)) fs) == vol6 fs.
+Proof. exact vol6_any_reference_point. Qed.
+Print Assumptions C07_volume_any_reference_point.
+
+(* any linear map multiplies it by the determinant: k^3 for a uniform scale, 1 for rotations, -1 for mirrors *)
+Theorem C07_volume_under_linear_maps : forall m fs,
+  vol6 (tmap (lin m) fs) == (let '(r1, r2, r3) := m in det3 r1 r2 r3) * vol6 fs.
+Proof. exact vol6_linear. Qed.
+Print Assumptions C07_volume_under_linear_maps.
+
+Theorem C07_volume_scales_with_the_cube : forall k fs, vol6 (tmap (lin (scale_m k)) fs) == k * k * k * vol6 fs.
+Proof. exact vol6_scale. Qed.
+Print Assumptions C07_volume_scales_with_the_cube.
+
+(* the tetrahedron, and every solid assembled from tetrahedra glued along coincident opposite planar faces: the formula gives the
+   sum of the pieces, i.e. the enclosed volume *)
+Theorem C07_tetrahedron_volume : forall a b c d, vol6 (tetra a b c d) == det3 (sub3 b a) (sub3 c a) (sub3 d a).
+Proof. exact vol6_tetra. Qed.
+Print Assumptions C07_tetrahedron_volume.
+
+Theorem C07_volume_of_assembled_solids : forall fs v, assembled fs v -> vol6 fs == v.
+Proof. exact assembled_volume. Qed.
+Print Assumptions C07_volume_of_assembled_solids.
+
+Example C07_volume_nonvacuous : (forall a b c d, closed (tetra a b c d) /\ nonempty (tetra a b c d)) /\
+  closed cube /\ nonempty cube /\ volume cube == 1.
+Proof. split; [intros; split; [apply tetra_closed | apply tetra_nonempty] | exact cube_closed_volume_one]. Qed.
